@@ -1,1 +1,381 @@
-fn main(){}
+//! driver: seeded search over worlds, faults and schedules for the StyLua CLI properties.
+//!
+//!   driver check <ID> [--tier quick|thorough] [--seed N] [--cases N] [--jobs N]
+//!   driver replay <file>
+//!   driver determinism [--cases N]
+//!   driver selftest
+//!
+//! exit 0: property held on everything explored (KNOWN-FINDING lines for listed findings)
+//! exit 1: "VIOLATION property=<id> replay=<path>"
+//! exit 2: harness error
+mod carrier;
+mod check;
+mod exec;
+mod gen;
+mod minimise;
+mod model;
+mod oracle;
+mod probes;
+mod report;
+mod rng;
+mod world;
+
+use check::{check_case, gen_case};
+use exec::{check_ancestors_clean, sim_binary, Scratch};
+use oracle::Violation;
+use rng::Rng;
+use std::collections::BTreeMap;
+use std::path::PathBuf;
+use std::sync::atomic::{AtomicBool, AtomicU64, Ordering};
+use std::sync::{Arc, Mutex};
+use std::time::Instant;
+use world::Case;
+
+pub fn verif_dir() -> PathBuf {
+    if let Ok(d) = std::env::var("VERIF_DIR") {
+        return PathBuf::from(d);
+    }
+    // target/debug/driver -> /verif/sim/target/debug -> /verif
+    let exe = std::env::current_exe().unwrap();
+    exe.ancestors().nth(4).map(|p| p.to_path_buf()).unwrap_or_else(|| PathBuf::from("/verif"))
+}
+
+struct Args {
+    cmd: String,
+    id: String,
+    tier: String,
+    seed: u64,
+    cases: Option<u64>,
+    jobs: usize,
+    replay: Option<String>,
+    max_wall_s: f64,
+}
+
+fn parse_args() -> Args {
+    let a: Vec<String> = std::env::args().collect();
+    let mut args = Args {
+        cmd: a.get(1).cloned().unwrap_or_default(),
+        id: String::new(),
+        tier: std::env::var("VERIF_TIER").unwrap_or_else(|_| "quick".into()),
+        seed: std::env::var("VERIF_SEED").ok().and_then(|s| s.parse().ok()).unwrap_or(1),
+        cases: None,
+        jobs: std::thread::available_parallelism().map(|n| n.get()).unwrap_or(8),
+        replay: None,
+        max_wall_s: 0.0,
+    };
+    let mut i = 2;
+    while i < a.len() {
+        match a[i].as_str() {
+            "--tier" => {
+                args.tier = a[i + 1].clone();
+                i += 1;
+            }
+            "--seed" => {
+                args.seed = a[i + 1].parse().expect("--seed N");
+                i += 1;
+            }
+            "--cases" => {
+                args.cases = Some(a[i + 1].parse().expect("--cases N"));
+                i += 1;
+            }
+            "--jobs" => {
+                args.jobs = a[i + 1].parse().expect("--jobs N");
+                i += 1;
+            }
+            "--replay" => {
+                args.replay = Some(a[i + 1].clone());
+                i += 1;
+            }
+            "--max-wall" => {
+                args.max_wall_s = a[i + 1].parse().expect("--max-wall S");
+                i += 1;
+            }
+            x if args.id.is_empty() && !x.starts_with("--") => args.id = x.to_string(),
+            x => {
+                eprintln!("unknown argument {x}");
+                std::process::exit(2);
+            }
+        }
+        i += 1;
+    }
+    args
+}
+
+/// (cases, schedules per case for C19, wall-clock cap in seconds)
+fn budget(id: &str, tier: &str) -> (u64, usize, f64) {
+    let thorough = tier == "thorough";
+    match (id, thorough) {
+        ("C19", false) => (1_200, 6, 150.0),
+        ("C19", true) => (12_000, 24, 1500.0),
+        ("C20", false) => (7_000, 0, 150.0),
+        ("C20", true) => (90_000, 0, 1500.0),
+        (_, false) => (7_000, 0, 150.0),
+        (_, true) => (90_000, 0, 1500.0),
+    }
+}
+
+pub struct Found {
+    pub v: Violation,
+    /// the case variant(s) exhibiting it (two for a differential violation)
+    pub cases: Vec<Case>,
+    pub case_index: u64,
+}
+
+fn cmd_check(args: &Args) -> i32 {
+    let id = args.id.as_str();
+    if !["C13", "C14", "C15", "C16", "C17", "C19", "C20"].contains(&id) {
+        eprintln!("property {id} is not decided by this framework (see MANIFEST.json not_applicable)");
+        return 2;
+    }
+    let bin = sim_binary();
+    if !bin.exists() {
+        eprintln!("simulated binary {} missing — build first", bin.display());
+        return 2;
+    }
+    let probe = Scratch::new("probe");
+    if let Err(e) = check_ancestors_clean(&probe.dir) {
+        eprintln!("HARNESS: {e}");
+        return 2;
+    }
+    drop(probe);
+    if let Some(r) = &args.replay {
+        return minimise::cmd_replay(&bin, id, r);
+    }
+    let (mut ncases, k_sched, mut cap) = budget(id, &args.tier);
+    if let Some(c) = args.cases {
+        ncases = c;
+    }
+    if args.max_wall_s > 0.0 {
+        cap = args.max_wall_s;
+    }
+    let thorough = args.tier == "thorough";
+    println!("VERIF_SEED={} property={} tier={} cases={} jobs={}", args.seed, id, args.tier, ncases, args.jobs);
+    if id == "C20" {
+        match carrier::selfcheck() {
+            Err(e) => {
+                eprintln!("HARNESS: carrier self-check failed: {e}");
+                return 2;
+            }
+            Ok((n, insens)) => {
+                println!("carrier sweep: {} entries; probe-insensitive value pairs: {:?}", n, insens);
+            }
+        }
+    }
+    let t0 = Instant::now();
+    let base = Rng::new(args.seed).fork(simplan::fnv(id.as_bytes(), 0));
+    let next = Arc::new(AtomicU64::new(0));
+    let stop = Arc::new(AtomicBool::new(false));
+    let stats = Arc::new(Mutex::new(report::Stats::new(id)));
+    let found: Arc<Mutex<Vec<Found>>> = Arc::new(Mutex::new(Vec::new()));
+    let harness: Arc<Mutex<Vec<String>>> = Arc::new(Mutex::new(Vec::new()));
+    let sweep_len = if id == "C20" { carrier::sweep().len() as u64 } else { 0 };
+    std::thread::scope(|s| {
+        for w in 0..args.jobs {
+            let (next, stop, stats, found, harness, base, bin) =
+                (next.clone(), stop.clone(), stats.clone(), found.clone(), harness.clone(), base.clone(), bin.clone());
+            s.spawn(move || {
+                let scratch = Scratch::new(&format!("w{w}"));
+                let mut local = report::Stats::new(id);
+                loop {
+                    if stop.load(Ordering::Relaxed) {
+                        break;
+                    }
+                    let i = next.fetch_add(1, Ordering::Relaxed);
+                    if i >= ncases {
+                        break;
+                    }
+                    if t0.elapsed().as_secs_f64() > cap {
+                        stop.store(true, Ordering::Relaxed);
+                        local.capped = true;
+                        break;
+                    }
+                    let mut rng = base.fork(i);
+                    let case = if id == "C20" && i < sweep_len {
+                        // the first cases enumerate the finite sweep completely
+                        let e = carrier::sweep()[i as usize].clone();
+                        carrier::sweep_case(&e, &mut rng)
+                    } else {
+                        gen_case(id, &mut rng, thorough)
+                    };
+                    let out = check_case(id, &bin, &scratch, &case, &mut rng, k_sched);
+                    if let Some(h) = out.harness {
+                        harness.lock().unwrap().push(format!("case {i}: {h}"));
+                        stop.store(true, Ordering::Relaxed);
+                        break;
+                    }
+                    local.absorb(i, &case, &out);
+                    if !out.violations.is_empty() {
+                        let mut f = found.lock().unwrap();
+                        for (v, cases) in out.violations {
+                            // one representative per class is enough; keep the smallest world
+                            let size = case.world.files.len();
+                            match f.iter_mut().find(|x| x.v.class == v.class) {
+                                Some(x) => {
+                                    if size < x.cases[0].world.files.len() {
+                                        *x = Found { v, cases, case_index: i };
+                                    }
+                                }
+                                None => f.push(Found { v, cases, case_index: i }),
+                            }
+                        }
+                    }
+                }
+                stats.lock().unwrap().merge(local);
+            });
+        }
+    });
+    let harness = harness.lock().unwrap();
+    if !harness.is_empty() {
+        for h in harness.iter() {
+            eprintln!("HARNESS: {h}");
+        }
+        return 2;
+    }
+    let mut stats = stats.lock().unwrap();
+    stats.wall_s = t0.elapsed().as_secs_f64();
+    stats.seed = args.seed;
+    stats.tier = args.tier.clone();
+    stats.jobs = args.jobs;
+    let mut found = found.lock().unwrap();
+    found.sort_by(|a, b| a.v.class.cmp(&b.v.class));
+    let known = report::load_known(&verif_dir());
+    let mut exit = 0;
+    let mut n_viol = 0;
+    let mut known_hits: BTreeMap<String, String> = BTreeMap::new();
+    for f in found.iter() {
+        if let Some(k) = known.iter().find(|k| k.property == id && k.status == "open" && f.v.class.contains(&k.class)) {
+            known_hits.entry(k.class.clone()).or_insert_with(|| format!("{} (e.g. case {}: {})", k.what, f.case_index, f.v.detail));
+            continue;
+        }
+        // minimise, write the replay file, confirm it in a fresh run, report
+        let scratch = Scratch::new("minimise");
+        match minimise::minimise_and_write(&bin, &scratch, id, f, &verif_dir()) {
+            Ok(path) => {
+                println!("VIOLATION property={} replay={}", id, path.display());
+                println!("  class: {}", f.v.class);
+                println!("  detail: {}", f.v.detail);
+                n_viol += 1;
+                exit = 1;
+            }
+            Err(e) => {
+                eprintln!("HARNESS: violation {} (case {}) could not be replayed: {e}", f.v.class, f.case_index);
+                return 2;
+            }
+        }
+    }
+    for (class, what) in &known_hits {
+        println!("KNOWN-FINDING: property={} {} — {}", id, class, what);
+    }
+    stats.violations = n_viol;
+    stats.known_findings = known_hits.keys().cloned().collect();
+    let ev = report::evidence_json(&stats);
+    let evdir = verif_dir().join("evidence");
+    let _ = std::fs::create_dir_all(&evdir);
+    if let Err(e) = std::fs::write(evdir.join(format!("{id}.json")), serde_json::to_vec_pretty(&ev).unwrap()) {
+        eprintln!("HARNESS: cannot write evidence: {e}");
+        return 2;
+    }
+    println!(
+        "{}: {} cases, {} runs, {:.1}s, {} distinct nontrivial, {} violation class(es), {} known finding(s){}",
+        id,
+        stats.cases,
+        stats.runs,
+        stats.wall_s,
+        stats.distinct.len(),
+        n_viol,
+        known_hits.len(),
+        if stats.capped { " [wall-clock cap reached]" } else { "" }
+    );
+    exit
+}
+
+/// Determinism proof: every case is executed twice, in different scratch directories and on
+/// different worker threads; trace, exit status, stdout and the final tree must be identical.
+fn cmd_determinism(args: &Args) -> i32 {
+    let bin = sim_binary();
+    let n = args.cases.unwrap_or(400);
+    let base = Rng::new(args.seed).fork(0xD37);
+    let next = Arc::new(AtomicU64::new(0));
+    let bad: Arc<Mutex<Vec<String>>> = Arc::new(Mutex::new(Vec::new()));
+    let t0 = Instant::now();
+    let props = ["C13", "C14", "C15", "C16", "C17", "C19", "C20"];
+    std::thread::scope(|s| {
+        for w in 0..args.jobs {
+            let (next, bad, base, bin) = (next.clone(), bad.clone(), base.clone(), bin.clone());
+            s.spawn(move || {
+                let s1 = Scratch::new(&format!("d{w}a"));
+                let s2 = Scratch::new(&format!("d{w}b-longer-name"));
+                loop {
+                    let i = next.fetch_add(1, Ordering::Relaxed);
+                    if i >= n {
+                        break;
+                    }
+                    let mut rng = base.fork(i);
+                    let p = props[(i % props.len() as u64) as usize];
+                    let case = gen_case(p, &mut rng, false);
+                    let a = check::execute(&bin, &s1, &case);
+                    let b = check::execute(&bin, &s2, &case);
+                    match (a, b) {
+                        (Ok(a), Ok(b)) => {
+                            for (x, y) in a.iter().zip(b.iter()) {
+                                let same = x.run.trace.raw == y.run.trace.raw
+                                    && x.run.status == y.run.status
+                                    && x.run.stdout == y.run.stdout
+                                    && x.run.after.files.iter().map(|(k, v)| (k, &v.bytes)).eq(y.run.after.files.iter().map(|(k, v)| (k, &v.bytes)));
+                                if !same {
+                                    bad.lock().unwrap().push(format!(
+                                        "case {i} ({p}): runs differ (status {} vs {}, trace equal: {})",
+                                        x.run.status,
+                                        y.run.status,
+                                        x.run.trace.raw == y.run.trace.raw
+                                    ));
+                                }
+                            }
+                        }
+                        (a, b) => bad.lock().unwrap().push(format!("case {i}: harness error {:?} {:?}", a.err(), b.err())),
+                    }
+                }
+            });
+        }
+    });
+    let bad = bad.lock().unwrap();
+    println!("determinism: {} cases x2, jobs={}, {:.1}s, {} divergences", n, args.jobs, t0.elapsed().as_secs_f64(), bad.len());
+    for b in bad.iter().take(10) {
+        eprintln!("HARNESS: {b}");
+    }
+    if bad.is_empty() {
+        0
+    } else {
+        2
+    }
+}
+
+fn main() {
+    let args = parse_args();
+    let code = match args.cmd.as_str() {
+        "check" => cmd_check(&args),
+        "replay" => {
+            let bin = sim_binary();
+            minimise::cmd_replay(&bin, "", &args.id)
+        }
+        "determinism" => cmd_determinism(&args),
+        "selftest" => match carrier::selfcheck() {
+            Ok((n, ins)) => {
+                println!("selftest ok: sweep {n} entries, insensitive pairs {:?}", ins);
+                0
+            }
+            Err(e) => {
+                eprintln!("HARNESS: {e}");
+                2
+            }
+        },
+        _ => {
+            eprintln!("usage: driver check <ID> [--tier quick|thorough] [--seed N] | replay <file> | determinism | selftest");
+            2
+        }
+    };
+    // remove the per-process scratch root
+    let base = if std::path::Path::new("/dev/shm").is_dir() { PathBuf::from("/dev/shm") } else { std::env::temp_dir() };
+    let _ = std::fs::remove_dir_all(base.join(format!("stylua-verif-{}", std::process::id())));
+    std::process::exit(code);
+}
